@@ -155,6 +155,8 @@ pub struct Gen<'a> {
     /// inbound QoS 2 publishes (index in injection order) not yet released by the broker
     unreleased: Vec<usize>,
     pub config: Config,
+    /// Deliver the next broker packets whole and at once (set around steps that must arrive).
+    pub force_whole: bool,
 }
 
 impl<'a> Gen<'a> {
@@ -181,6 +183,7 @@ impl<'a> Gen<'a> {
             inbound_count: 0,
             unreleased: Vec::new(),
             config,
+            force_whole: false,
         }
     }
 
@@ -216,6 +219,10 @@ impl<'a> Gen<'a> {
     }
 
     pub fn broker(&mut self, pkt: BrokerPkt) {
+        if self.force_whole {
+            self.push(Step::Broker { pkt, chunks: Chunks::Whole, hold: false });
+            return;
+        }
         let chunks = self.chunks(16);
         let hold = self.cfg.hold_pct > 0 && self.rng.below(100) < self.cfg.hold_pct;
         self.push(Step::Broker { pkt, chunks, hold });
